@@ -13,6 +13,8 @@
     utils/cobrautil     DescribeFlags, formats OneLine and Plain
     http_proxy.go       upstreamProxyURL + the "using upstream proxy" line (`url.Redacted()`)
     pflag / utils/cobrautil/bind.go   "invalid argument %q for %q flag: " for a rejected flag value
+    pac/proxy.go, credentials.go, http_proxy.go   Proxies.First / parseProxy, CredentialsMatcher.Match,
+                        pacProxy: the proxy a PAC result selects, the credentials merged into it, its errors
     tls.go              redactDataURI; loadRootCAs: `append certificate %q` of the redacted entry
                         (wrapped as `load CAs: …`)
     http_proxy.go, http_server.go   configureHTTPS/configureHTTP2: the debug line
@@ -568,6 +570,197 @@ def flagErrors (ss : List Setting) : List Bytes :=
     termination log -/
 def caCertErrorText (raw : Bytes) : Bytes :=
   ascii "load CAs: append certificate " ++ quoteAscii (redactDataURI raw)
+
+/-! ### PAC: the proxy a script selects and the `--credentials` entry merged into it
+
+  pac/proxy.go `Proxies.First` / `parseProxy` / `parseMode` / `Proxy.URL`, credentials.go
+  `CredentialsMatcher.Match`, http_proxy.go `pacProxy` (no Kerberos).  The input is the string
+  `FindProxyForURL` returned; an error of the script itself is returned by `pacProxy` before anything
+  else is looked at and is not modelled.  Domain: printable ASCII without brackets and `%` in the
+  host part of an entry (`net.SplitHostPort` / `net.JoinHostPort` treat those specially). -/
+
+/-- pac/proxy.go `Mode` -/
+inductive PacMode where
+  | direct | proxy | http | https | socks | socks4 | socks5
+  deriving DecidableEq, Repr
+
+/-- `Mode.String()` (stringer) -/
+def PacMode.name : PacMode → Bytes
+  | .direct => ascii "DIRECT"
+  | .proxy => ascii "PROXY"
+  | .http => ascii "HTTP"
+  | .https => ascii "HTTPS"
+  | .socks => ascii "SOCKS"
+  | .socks4 => ascii "SOCKS4"
+  | .socks5 => ascii "SOCKS5"
+
+/-- `parseMode`: a word that is no mode is read as DIRECT -/
+def parsePacMode (s : Bytes) : PacMode :=
+  if s = ascii "PROXY" then .proxy
+  else if s = ascii "HTTP" then .http
+  else if s = ascii "HTTPS" then .https
+  else if s = ascii "SOCKS" then .socks
+  else if s = ascii "SOCKS4" then .socks4
+  else if s = ascii "SOCKS5" then .socks5
+  else .direct
+
+/-- pac/proxy.go `Proxy` -/
+structure PacProxy where
+  mode : PacMode
+  host : Bytes
+  port : Bytes
+  deriving DecidableEq, Repr
+
+def pacDirect : PacProxy := ⟨.direct, [], []⟩
+
+/-- ASCII white space of `strings.TrimSpace` -/
+def isPacSpace (c : UInt8) : Bool := c == 32 || (9 ≤ c && c ≤ 13)
+
+def pacTrim (s : Bytes) : Bytes := ((s.dropWhile isPacSpace).reverse.dropWhile isPacSpace).reverse
+
+/-- `net.SplitHostPort` on a string without brackets: host and port, or the text of the `AddrError` -/
+def splitHostPort (hp : Bytes) : Except Bytes (Bytes × Bytes) :=
+  match cutLastByte cColon hp with
+  | none => .error (ascii "address " ++ hp ++ ascii ": missing port in address")
+  | some (h, p) =>
+    if cColon ∈ h then .error (ascii "address " ++ hp ++ ascii ": too many colons in address")
+    else .ok (h, p)
+
+/-- `strconv.ParseUint(port, 10, 16)` succeeds -/
+def pacPortOK (p : Bytes) : Bool := !p.isEmpty && p.all isDigit && decVal p ≤ 65535
+
+/-- `parseProxy`: one `<type> <host>:<port>` entry, or the text of the error -/
+def parsePacEntry (s : Bytes) : Except Bytes PacProxy :=
+  let s := pacTrim s
+  if s = [] then .ok pacDirect
+  else if s = ascii "DIRECT" then .ok pacDirect
+  else
+    match cutByte 32 s with
+    | none => .error (ascii "missing host:port")
+    | some (mode, hp) =>
+      match splitHostPort hp with
+      | .error e => .error (ascii "split host:port: " ++ e)
+      | .ok (host, port) =>
+        if host.isEmpty || host.any (fun c => c == 32 || c == 9) then
+          .error (ascii "invalid host " ++ quoteAscii host)
+        else if !pacPortOK port then .error (ascii "invalid port " ++ quoteAscii port)
+        else .ok ⟨parsePacMode mode, host, port⟩
+
+/-- `Proxies.First`: only the first entry of the list is looked at -/
+def pacFirst (s : Bytes) : Except Bytes PacProxy :=
+  if s = [] then .ok pacDirect
+  else
+    let spec := match cutByte 59 s with
+      | some (a, _) => a
+      | none => s
+    match parsePacEntry spec with
+    | .error e => .error (ascii "invalid proxy string at pos 0 " ++ quoteAscii spec ++ ascii ": " ++ e)
+    | .ok p => .ok p
+
+/-- the scheme of `Proxy.URL`: PROXY is http, otherwise the lower-case mode name -/
+def pacScheme : PacMode → Bytes
+  | .direct => []
+  | .proxy => schemeHttp
+  | .http => schemeHttp
+  | .https => schemeHttps
+  | .socks => ascii "socks"
+  | .socks4 => ascii "socks4"
+  | .socks5 => schemeSocks5
+
+/-- `Proxy.URL`: nil for DIRECT, else `scheme://host:port` without userinfo -/
+def pacURL (p : PacProxy) : Option ProxyURL :=
+  if p.mode = .direct then none else some ⟨pacScheme p.mode, none, p.host ++ cColon :: p.port⟩
+
+/-- the four maps of `CredentialsMatcher` (`*` host, port `0` = wildcard) -/
+inductive CredClass where
+  | exact | anyHost | anyPort | global
+  deriving DecidableEq, Repr
+
+def credClassOf (host port : Bytes) : CredClass :=
+  if host = [cStar] then (if port = [48] then .global else .anyHost)
+  else if port = [48] then .anyPort else .exact
+
+/-- `CredentialsMatcher.Match` for `host:port`: exact entry, then `*:port`, then `host:*`, then `*:*`
+    (duplicates are rejected when the table is built, so the first entry of a class is the entry) -/
+def credMatch (t : List HostPortUser) (host port : Bytes) : Option HostPortUser :=
+  ((t.find? fun e => decide (credClassOf e.host e.port = .exact) && (e.host == host && e.port == port)).or
+   (t.find? fun e => decide (credClassOf e.host e.port = .anyHost) && e.port == port)).or
+  ((t.find? fun e => decide (credClassOf e.host e.port = .anyPort) && e.host == host).or
+   (t.find? fun e => decide (credClassOf e.host e.port = .global)))
+
+/-- what `pacProxy` hands to the transport / the CONNECT dialer -/
+inductive PacOutcome where
+  | error (text : Bytes)
+  | direct
+  | via (u : ProxyURL)
+  deriving DecidableEq, Repr
+
+def PacOutcome.errorText : PacOutcome → Option Bytes
+  | .error t => some t
+  | _ => none
+
+/-- the part of an outcome that diagnostics may show: the password of the merged userinfo replaced -/
+def PacOutcome.pub : PacOutcome → PacOutcome
+  | .via u => .via { u with user := u.user.map fun ui => ⟨ui.user, ui.pass.map fun _ => placeholder⟩ }
+  | o => o
+
+/-- an outcome as diagnostics render it: the error text, or the proxy URL through `Redacted()` -/
+def PacOutcome.logged : PacOutcome → Bytes
+  | .error t => t
+  | .direct => ascii "DIRECT"
+  | .via u => redactURL (some u)
+
+/-- http_proxy.go `pacProxy` on the string the script returned: SOCKS and SOCKS4 are refused by the
+    mode alone, before the proxy URL exists; then the userinfo of the matching `--credentials` entry
+    is put into the URL -/
+def pacProxy (t : List HostPortUser) (result : Bytes) : PacOutcome :=
+  match pacFirst result with
+  | .error e => .error e
+  | .ok p =>
+    if p.mode = .socks ∨ p.mode = .socks4 then
+      .error (ascii "PAC: unsupported proxy type " ++ p.mode.name)
+    else
+      match pacURL p with
+      | none => .direct
+      | some u =>
+        match credMatch t p.host p.port with
+        | some e => .via { u with user := some e.ui }
+        | none => .via u
+
+/-- the `--credentials` entry a public entry and its password parse to -/
+def CredPub.entry (c : CredPub) (pw : Bytes) : HostPortUser :=
+  ⟨c.host, if c.port = [cStar] then [48] else c.port, ⟨c.user.user, if c.user.hasPass then some pw else none⟩⟩
+
+/-- the table of a configuration (entries indexed like `rawsFrom`) -/
+def credTable : List CredPub → Nat → (Nat → Bytes) → List HostPortUser
+  | [], _, _ => []
+  | c :: r, i, s => c.entry (s i) :: credTable r (i + 1) s
+
+/-- `url.URL.String` of a proxy URL: the userinfo *with* its password (escaped as `net/url` does) -/
+def urlString (u : ProxyURL) : Bytes :=
+  u.scheme ++ schemeSep ++
+    (match u.user with
+     | some ui =>
+       escapeUser ui.user ++
+         (match ui.pass with
+          | some p => cColon :: escapeUser p
+          | none => []) ++ [cAt]
+     | none => []) ++ u.host
+
+/-- NOT the code — the mistake the ordering in `pacProxy` excludes: the kind is checked after the
+    credentials were merged, and the refusal names the proxy URL with `%s` -/
+def pacProxyKindAfterMerge (t : List HostPortUser) (result target : Bytes) : PacOutcome :=
+  match pacFirst result with
+  | .error e => .error e
+  | .ok p =>
+    match pacURL p with
+    | none => .direct
+    | some u =>
+      let u' : ProxyURL := match credMatch t p.host p.port with
+        | some e => { u with user := some e.ui }
+        | none => u
+      if schemeOK u'.scheme then .via u'
+      else .error (ascii "PAC: unsupported proxy " ++ urlString u' ++ ascii " for " ++ target)
 
 /-- decidable infix test used by the driver (`bytes.Contains`) -/
 def isInfix (s : Bytes) : Bytes → Bool
